@@ -32,6 +32,9 @@ type builtTrie struct {
 
 func buildTrie(t *rapid.T, secure bool, scheme string, minPool, maxPool int) *builtTrie {
 	b := &builtTrie{secure: secure, scheme: scheme, content: map[string][]byte{}}
+	if fuzzMode && maxPool > 8 {
+		maxPool = 8
+	}
 	b.pool = genKeyPool(t, scheme, rapid.IntRange(minPool, maxPool).Draw(t, "poolSize"))
 	disk, tdb := newTrieDB()
 	b.tdb = tdb
@@ -122,7 +125,7 @@ func (b *builtTrie) probes(t *rapid.T) []probe {
 	}
 	keys := sortedKVs(b.content)
 	for i, e := range keys {
-		if i >= 12 {
+		if i >= 12 || (fuzzMode && i >= 3) {
 			break
 		}
 		k := e.k
@@ -223,7 +226,7 @@ func propProof(t *rapid.T) {
 			}
 		}
 	}
-	for n := 0; n < 2; n++ {
+	for n := 0; n < 2 && !fuzzMode; n++ {
 		fullSweep[rapid.IntRange(0, len(probes)-1).Draw(t, "sweep")] = true
 	}
 	for pi, p := range probes {
@@ -271,7 +274,7 @@ func propProof(t *rapid.T) {
 			}
 		}
 		// 3. every single-bit corruption of every node (for the probes selected for the full
-		// sweep; a drawn sample of 64 flips for the others)
+		// sweep; a strided sample of about 48 flips for the others)
 		base := newProofSet(bl.blobs...)
 		for i, blob := range bl.blobs {
 			tryFlip := func(bit int) {
@@ -285,8 +288,10 @@ func propProof(t *rapid.T) {
 					tryFlip(bit)
 				}
 			} else {
-				for n := 0; n < 64/len(bl.blobs)+1; n++ {
-					tryFlip(rapid.IntRange(0, 8*len(blob)-1).Draw(t, "bit"))
+				// a strided sample from a drawn phase (one draw per node, not one per flip)
+				stride := 8*len(blob)/(48/len(bl.blobs)+1) + 1
+				for bit := rapid.IntRange(0, stride-1).Draw(t, "phase"); bit < 8*len(blob); bit += stride {
+					tryFlip(bit)
 				}
 			}
 		}
